@@ -57,6 +57,10 @@ def role_coherence(facts, fn, sr, call, op, slots, res, R="C02.1.role-coherence"
     byrole = {}
     for (role, part, io), s in zip(roles, slots):
         byrole.setdefault(role, []).append((part, io, s))
+        if part == "level" and fn.get("cls") == "TbfGroupKernelInterface":
+            # the wrapper hands its own level parameter on, unmodified
+            if s["kind"] != "level":
+                res.violation(R, f, fnq, key0 + ":level", line, "the level handed to %s is `%s`, not the wrapper's own level parameter" % (op, facts.ntext(s["node"])[:60]))
     descr = []
     for role, items in byrole.items():
         if role == "":
